@@ -223,6 +223,9 @@ def run_check(prop, tier, seed):
             print(f"MACHINERY-ERROR property={prop} {inst['module']}/{inst['cfg']}: no behaviour exported")
             return 2
         behs = sorted(behs, key=summarize)      # deterministic pairing; neighbours share their action skeleton
+        replay._CONTAINER[0] = inst.get("container") or os.environ.get("VERIF_CONTAINER", "jax")
+        if replay._CONTAINER[0] == "numpy":
+            rp.count("behaviours_with_numpy_containers", len(behs))
         step = max(1, len(behs) // 3)
         for b in behs[::step][:3]:
             samples.append({"instance": inst["cfg"], "behaviour": summarize(b)})
